@@ -665,7 +665,7 @@ func (c *decoratorController) syncParentObject(parent *unstructured.Unstructured
 		}
 
 		c.logger.V(4).Info("DecoratorController updating", "controller", c.dc, "parent", parent)
-		_, err = parentClient.Namespace(parent.GetNamespace()).Update(context.TODO(), updatedParent, metav1.UpdateOptions{})
+		result, err := parentClient.Namespace(parent.GetNamespace()).Update(context.TODO(), updatedParent, metav1.UpdateOptions{})
 		if err != nil {
 			if apierrors.IsNotFound(err) {
 				// Swallow the error since there's no point retrying if the parent is gone.
@@ -678,6 +678,9 @@ func (c *decoratorController) syncParentObject(parent *unstructured.Unstructured
 			}
 			return fmt.Errorf("can't update %v %v/%v: %w", parent.GetKind(), parent.GetNamespace(), parent.GetName(), err)
 		}
+		// The finalizer may be gone now: decide below whether to manage children
+		// on the parent as it was just written, not on the cached copy.
+		parent = result
 	}
 
 	// Add an annotation to all desired children to remember that they were
